@@ -5,6 +5,10 @@ V2 == {0, 1}
 AllRes  == {"a", "f", "i", "o", "g", "n", "p"}
 AllKind == [a |-> "cell", f |-> "fn", i |-> "in", o |-> "out", g |-> "log", n |-> "ctr", p |-> "pcell"]
 AllInit == [a |-> <<0>>, f |-> <<0, 0>>, i |-> <<>>, o |-> <<>>, g |-> <<>>, n |-> <<0>>, p |-> <<0, 0>>]
+\* the non-stream kinds together
+MixRes  == {"f", "g", "n", "p"}
+MixKind == [f |-> "fn", g |-> "log", n |-> "ctr", p |-> "pcell"]
+MixInit == [f |-> <<0, 0>>, g |-> <<>>, n |-> <<0>>, p |-> <<0, 0>>]
 \* ... and the stream-heavy one with the relaxed output and the defaulting input
 StrRes  == {"a", "i", "c", "o", "x"}
 StrKind == [a |-> "cell", i |-> "in", c |-> "cin", o |-> "out", x |-> "rout"]
